@@ -40,6 +40,10 @@ type c12Req struct {
 	PathVals []string `json:"path_vals,omitempty"`
 	// Multipart: the body (Form) is sent as multipart/form-data instead of urlencoded
 	Multipart bool `json:"multipart,omitempty"`
+	// H: what the handler does with the response: 0 = c.String(200); 1 = nothing at all (returns nil: the
+	// server's implicit 200); 2 = writes 202 + body through the raw c.Response().Writer; 3 = WriteHeader(203)
+	// on c.Response().Unwrap(); 4 = c.NoContent(204); 5 = returns an echo.HTTPError 418
+	H int `json:"h,omitempty"`
 }
 
 type c12Case struct {
@@ -68,11 +72,17 @@ type c12Case struct {
 	Len2  int `json:"len2,omitempty"`
 	// Inst2: how the second CSRF instance is configured: 0 = cookie "_csrf2", ContextKey "csrf2", lookup
 	// "header:X-Csrf2,query:csrf2"; 1 = cookie "_csrf_admin", lookup "form:admin_csrf", ContextKey left at
-	// its default (shared with a first instance that also uses the default); 2 = as 0 but with the default ContextKey
+	// its default (shared with a first instance that also uses the default); 2 = as 0 but with the default ContextKey;
+	// 3 = as 0 but the cookie name is the FIRST instance's cookie name + "_site" (the outer name is a proper
+	// prefix of the inner one); 4 = as 0 but the cookie name is the first instance's without its last byte (the
+	// inner name is a proper prefix of the outer one)
 	Inst2 int `json:"inst2,omitempty"`
 	// PreSet: a middleware registered before everything else puts "preset-ctx-value" under the first
 	// instance's ContextKey
 	PreSet bool `json:"preset,omitempty"`
+	// AppCookies: the application sets cookies of its own: a middleware registered before everything else
+	// sets "session" and "<first CSRF cookie name>_state", the handler sets "after"
+	AppCookies bool `json:"app_cookies,omitempty"`
 	// Conc > 0: concurrency case (oracle only): Conc goroutines send ConcN requests each through the one
 	// stack at the same time, every goroutine with its own CSRF cookie (or none: real crypto/rand)
 	Conc  int `json:"conc,omitempty"`
@@ -128,6 +138,10 @@ func (c *c12Case) instances() []*c12Inst {
 			second.cookie, second.lookup, second.key, rawKey = "_csrf_admin", "form:admin_csrf", "csrf", ""
 		case 2:
 			second.key, rawKey = "csrf", ""
+		case 3:
+			second.cookie = first.cookie + "_site"
+		case 4:
+			second.cookie = first.cookie[:len(first.cookie)-1]
 		}
 		second.raw = middleware.CSRFConfig{TokenLength: uint8(c.Len2), TokenLookup: second.lookup, CookieName: second.cookie, ContextKey: rawKey}
 		out = append(out, second)
@@ -161,7 +175,7 @@ func (c *c12Case) stack() []int {
 func (c *c12Case) valid() bool {
 	if c.TokenLength < 0 || c.TokenLength > 255 || c.ErrorHandler < 0 || c.ErrorHandler > 2 || c.Extra < 0 || c.Extra > 4 ||
 		c.Len2 < 0 || c.Len2 > 255 || c.CookieMaxAge < 0 || c.CookieMaxAge > 1<<30 || c.CookieSameSite < 0 || c.CookieSameSite > 4 ||
-		c.Ctor < 0 || c.Ctor > 1 || len(c.Route) > 40 || c.Mount < 0 || c.Mount > 4 || c.Inst2 < 0 || c.Inst2 > 2 || c.Conc < 0 || c.Conc > 64 || c.ConcN < 0 || c.ConcN > 5000 {
+		c.Ctor < 0 || c.Ctor > 1 || len(c.Route) > 40 || c.Mount < 0 || c.Mount > 4 || c.Inst2 < 0 || c.Inst2 > 4 || c.Conc < 0 || c.Conc > 64 || c.ConcN < 0 || c.ConcN > 5000 {
 		return false
 	}
 	if c.Ctor == 1 && (c.TokenLength != 0 || c.TokenLookup != "" || c.CookieName != "" || c.ContextKey != "" || c.ErrorHandler != 0 ||
@@ -174,7 +188,7 @@ func (c *c12Case) valid() bool {
 		}
 	}
 	for _, rq := range c.Reqs {
-		if len(rq.PathVals) > len(c.Route) || (c.RealRandom && rq.GuessFresh != "") {
+		if len(rq.PathVals) > len(c.Route) || (c.RealRandom && rq.GuessFresh != "") || rq.H < 0 || rq.H > 5 {
 			return false
 		}
 		for _, v := range rq.PathVals {
@@ -207,6 +221,7 @@ type c12Obs struct {
 	status    int
 	setCookie []*http.Cookie // per CSRF instance: the first Set-Cookie with its name
 	ctxTok    []*string      // per CSRF instance: c.Get(ContextKey) as the handler found it (the very string, not a copy)
+	all       []*http.Cookie // every Set-Cookie that reached the wire
 	rid       string         // X-Request-Id of the response
 	skipSaid  []bool
 	t0, t1    time.Time
@@ -305,6 +320,7 @@ type c12Env struct {
 	e       *echo.Echo
 	mws     []echo.MiddlewareFunc
 	grp     *echo.Group
+	hmode   int
 	wrapped echo.HandlerFunc
 	insts   []*c12Inst
 	ran     bool
@@ -347,6 +363,7 @@ func c12Serve(env *c12Env, req *http.Request, rnd []byte, needsRandom bool) c12O
 		o.rid = rec.Header().Get("X-Request-Id")
 		o.setCookie = make([]*http.Cookie, len(env.insts))
 		cks := rec.Result().Cookies()
+		o.all = cks
 		for k, in := range env.insts {
 			o.skipSaid = append(o.skipSaid, in.skipSaid)
 			for _, ck := range cks {
@@ -499,6 +516,7 @@ func c12Run(ci any) Result {
 	if c.PreSet {
 		ops = []string{wStr(c.TokenLookup), "1", wStr(insts[0].key), wStr(c12Preset)}
 	}
+	ops = append(ops, wBool(c.AppCookies))
 	ops = append(ops, c12MwOps(c, insts)...)
 	ops = append(ops, wInt(len(c.Reqs)))
 	tagset := map[string]bool{}
@@ -529,6 +547,16 @@ func c12Run(ci any) Result {
 			}
 		}()
 		env.e = echo.New()
+		if c.AppCookies {
+			state := insts[0].cookie + "_state"
+			env.e.Use(func(next echo.HandlerFunc) echo.HandlerFunc {
+				return func(ctx echo.Context) error {
+					ctx.SetCookie(&http.Cookie{Name: "session", Value: "abc"})
+					ctx.SetCookie(&http.Cookie{Name: state, Value: "keep"})
+					return next(ctx)
+				}
+			})
+		}
 		if c.PreSet {
 			key := insts[0].key
 			env.e.Use(func(next echo.HandlerFunc) echo.HandlerFunc {
@@ -592,6 +620,25 @@ func c12Run(ci any) Result {
 			if v, ok := ctx.Get(in.key).(string); ok {
 				env.ctx[k] = &v
 			}
+		}
+		if c.AppCookies {
+			ctx.SetCookie(&http.Cookie{Name: "after", Value: "1"})
+		}
+		switch env.hmode {
+		case 1:
+			return nil
+		case 2:
+			w := ctx.Response().Writer
+			w.WriteHeader(http.StatusAccepted)
+			_, err := w.Write([]byte("raw"))
+			return err
+		case 3:
+			ctx.Response().Unwrap().WriteHeader(http.StatusNonAuthoritativeInfo)
+			return nil
+		case 4:
+			return ctx.NoContent(http.StatusNoContent)
+		case 5:
+			return echo.NewHTTPError(http.StatusTeapot, "handler says no")
 		}
 		return ctx.String(http.StatusOK, "ok")
 	}
@@ -688,7 +735,9 @@ func c12Run(ci any) Result {
 		if c.Extra == 1 || c.Extra == 2 || c.Extra == 4 {
 			needsRandom = true
 		}
+		env.hmode = rq.H
 		o := c12Serve(env, b.req, rq.Rnd, needsRandom)
+		env.hmode = 0
 		safe := c12IsSafe(rq.Method)
 		// tags
 		if safe {
@@ -770,6 +819,16 @@ func c12Run(ci any) Result {
 				line = append(line, "c", sc, ct)
 				line = append(line, attrs...)
 			}
+			// the names of all Set-Cookie lines on the wire (sorted: the order of the lines is not compared)
+			var names []string
+			for _, ck := range o.all {
+				names = append(names, ck.Name)
+			}
+			sort.Strings(names)
+			line = append(line, wInt(len(names)))
+			for _, n := range names {
+				line = append(line, wStr(n))
+			}
 			obs = append(obs, line...)
 		default:
 			obs = append(obs, "0", wInt(o.status))
@@ -777,8 +836,11 @@ func c12Run(ci any) Result {
 		// ---- model-free oracle: the property itself, for every CSRF instance in front of the handler
 		if o.ran {
 			tagset["passed"] = true
-			if o.status != http.StatusOK {
-				fail(i, fmt.Sprintf("handler ran but status %d", o.status))
+			if want := []int{200, 200, 202, 203, 204, 418}[rq.H]; o.status != want {
+				fail(i, fmt.Sprintf("handler ran (mode %d) but status %d, not %d", rq.H, o.status, want))
+			}
+			if rq.H != 0 {
+				tagset[[]string{"", "handler-writes-nothing", "handler-writes-through-raw-writer", "handler-writes-through-Unwrap", "handler-NoContent", "handler-returns-error"}[rq.H]] = true
 			}
 		} else {
 			tagset["rejected"] = true
@@ -903,6 +965,12 @@ func c12Run(ci any) Result {
 	}
 	if c.PreSet {
 		tagset["context-key-preset-by-earlier-middleware"] = true
+	}
+	if c.AppCookies {
+		tagset["application-cookies-before-and-after"] = true
+	}
+	if c.Extra >= 3 && c.Inst2 >= 3 {
+		tagset[[]string{"outer-cookie-name-prefix-of-inner", "inner-cookie-name-prefix-of-outer"}[c.Inst2-3]] = true
 	}
 	for _, rq := range c.Reqs {
 		if rq.Multipart {
@@ -1483,6 +1551,18 @@ func c12GenReq(r *rand.Rand, c *c12Case) c12Req {
 		if r.Intn(3) == 0 && len(locs) > 1 { // a wrong token at another configured location
 			c12Place(r, c.Route, &rq, locs[r.Intn(len(locs))], c12NearMiss(r, tok))
 		}
+	case x < 11 && hasCookie && tok != "" && r.Intn(5) == 0:
+		// the cookie holds %xx / + escapes; the client presents what the cookie DECODES to (another token)
+		esc := "q%41" + tok[:len(tok)/2] + "+" + tok[len(tok)/2:] + "%7e"
+		if dec, err := url.QueryUnescape(esc); err == nil && dec != esc {
+			for k := range rq.Cookies {
+				if rq.Cookies[k][0] == cookieName && rq.Cookies[k][1] == tok {
+					rq.Cookies[k][1] = esc
+					break
+				}
+			}
+			c12Place(r, c.Route, &rq, loc, dec)
+		}
 	case x < 11: // near misses only
 		k := 1 + r.Intn(3)
 		for i := 0; i < k; i++ {
@@ -1562,6 +1642,9 @@ func c12GenReq(r *rand.Rand, c *c12Case) c12Req {
 	if r.Intn(6) == 0 {
 		rq.Headers = append(rq.Headers, [2]string{"X-Requested-With", "XMLHttpRequest"})
 	}
+	if r.Intn(4) == 0 {
+		rq.H = 1 + r.Intn(5)
+	}
 	if strings.Contains(c.TokenLookup, "form:") && r.Intn(3) == 0 || r.Intn(30) == 0 {
 		// the body as multipart/form-data: parsed whatever the method
 		rq.Multipart = true
@@ -1623,13 +1706,14 @@ func c12Gen(r *rand.Rand, tier string) []any {
 			c.Extra = 1 + r.Intn(4)
 			c.Len2 = []int{0, 1, 8, 32, 33, 64, 204, 205, 255}[r.Intn(9)]
 			if c.Extra >= 3 {
-				c.Inst2 = r.Intn(3)
+				c.Inst2 = r.Intn(5)
 				if c.Inst2 != 0 && r.Intn(2) == 0 {
 					c.ContextKey = "" // both instances on the default key
 				}
 			}
 		}
 		c.PreSet = r.Intn(12) == 0
+		c.AppCookies = r.Intn(6) == 0
 		if strings.Contains(c.TokenLookup, "param:") || r.Intn(30) == 0 {
 			c.Route = c12Routes[r.Intn(len(c12Routes))]
 			if strings.Contains(c.TokenLookup, "param:t") && !strings.Contains(c.TokenLookup, "param:tok") && r.Intn(2) == 0 {
@@ -1743,7 +1827,7 @@ func c12LookAlikes(c *c12Case, rq *c12Req, loc c12Loc, tok string) {
 	case "cookie":
 		csrfCookie := c12Eff(c.CookieName, "_csrf")
 		for _, n := range names {
-			if n != loc.name && n != csrfCookie && n != "_csrf2" && n != "_csrf_admin" {
+			if n != loc.name && n != csrfCookie && !c12IsInstCookie(c, n) {
 				rq.Cookies = append(rq.Cookies, [2]string{n, tok})
 			}
 		}
@@ -1766,6 +1850,15 @@ func c12LookAlikes(c *c12Case, rq *c12Req, loc c12Loc, tok string) {
 			}
 		}
 	}
+}
+
+func c12IsInstCookie(c *c12Case, n string) bool {
+	for _, in := range c.instances() {
+		if in.cookie == n {
+			return true
+		}
+	}
+	return false
 }
 
 // c12Configured: the lookup string (of either CSRF instance) names this location
@@ -1905,6 +1998,19 @@ func c12Shrink(ci any) []any {
 		d.PreSet = false
 		out = append(out, &d)
 	}
+	if c.AppCookies {
+		d := *c
+		d.AppCookies = false
+		out = append(out, &d)
+	}
+	for i, rq := range c.Reqs {
+		if rq.H != 0 {
+			d := *c
+			d.Reqs = append([]c12Req(nil), c.Reqs...)
+			d.Reqs[i].H = 0
+			out = append(out, &d)
+		}
+	}
 	if c.Conc > 0 {
 		return nil // schedule dependent: keep the case as generated
 	}
@@ -1933,7 +2039,7 @@ func c12Shrink(ci any) []any {
 func init() {
 	register(&Prop{
 		ID:             "C12",
-		Rule:           "one CSRF middleware per case, built with CSRFWithConfig (TokenLength 0/1..255 with the uint8 boundaries 203..208, 254, 255; 15 header/form/query TokenLookup shapes with 1-3 sources, prefix cut (also as the LAST source), non-canonical header names; 12% param:/cookie: sources on routes with 1-3 or 22 path parameters; 4% ignored/failing sources (no known source: compared with the model only); a third with a custom ErrorHandler that writes its own 418 and returns nil, or returns its own 409 error; a third with cookie options Path/Domain/MaxAge/Secure/HttpOnly/SameSite 0..4; a seventh with a Skipper on the X-Skip header) or with the convenience constructor CSRF() (8%); a quarter of the cases stack other consumers of the random source on the same Echo: RequestID() after or before CSRF, a second CSRF instance (own cookie, context key, lookup, token length), or CSRF + RequestID() + second CSRF (the second instance with its own ContextKey, or — own cookie _csrf_admin / lookup form:admin_csrf, or cookie _csrf2 — on the DEFAULT ContextKey shared with the first instance: the innermost instance owns the key, every instance still validates and publishes its own cookie); a twelfth of the cases have an earlier middleware that presets a value under the ContextKey; registration with e.Use, on the route, on a group, first on the Echo and the rest on a group, or applied once by hand (mw(handler): the only way state of the func(next) part is shared between requests); x 1-4 requests: 27 method spellings (standard, lower/mixed case, padded, custom, empty) x cookie present/empty/absent/look-alike name/duplicated x client token exact (alone, among 3/20/21/25 values, beside wrong tokens at other sources), near miss (prefix, suffix, case change, padding, NUL, bit flip, empty), absent, at a non-configured, look-alike-named or unparsed location, or guessed fresh token; random source = seeded byte stream per request delivered one byte per Read (uniform, mostly rejected bytes, boundary bytes 200..215, whole first buffer rejected, too short for the first or for a later consumer), shared by all consumers of the request; every token a handler found in its context is kept (the very string) and compared again with its Set-Cookie after all later requests; every 60th case runs on the real crypto/rand (oracle only: length, letters, Set-Cookie = context, no token issued twice); CreateExtractors is also called directly on the configured string; plus 12 (thorough: 150) concurrency cases: 8-16 goroutines x 150-300 (x3) overlapping requests through one stack, each goroutine with its own cookie (every third without: real crypto/rand), every response must carry ITS request's token in Set-Cookie and context, every request must pass (oracle only, sound on every schedule); non-trivial = an unsafe request that passed, or was rejected although cookie and client tokens were present; distinct = distinct model op lines",
+		Rule:           "one CSRF middleware per case, built with CSRFWithConfig (TokenLength 0/1..255 with the uint8 boundaries 203..208, 254, 255; 15 header/form/query TokenLookup shapes with 1-3 sources, prefix cut (also as the LAST source), non-canonical header names; 12% param:/cookie: sources on routes with 1-3 or 22 path parameters; 4% ignored/failing sources (no known source: compared with the model only); a third with a custom ErrorHandler that writes its own 418 and returns nil, or returns its own 409 error; a third with cookie options Path/Domain/MaxAge/Secure/HttpOnly/SameSite 0..4; a seventh with a Skipper on the X-Skip header) or with the convenience constructor CSRF() (8%); a quarter of the cases stack other consumers of the random source on the same Echo: RequestID() after or before CSRF, a second CSRF instance (own cookie, context key, lookup, token length), or CSRF + RequestID() + second CSRF (the second instance with its own ContextKey, or — own cookie _csrf_admin / lookup form:admin_csrf, or cookie _csrf2 — on the DEFAULT ContextKey shared with the first instance: the innermost instance owns the key, every instance still validates and publishes its own cookie); a twelfth of the cases have an earlier middleware that presets a value under the ContextKey; registration with e.Use, on the route, on a group, first on the Echo and the rest on a group, or applied once by hand (mw(handler): the only way state of the func(next) part is shared between requests); x 1-4 requests: 27 method spellings (standard, lower/mixed case, padded, custom, empty) x cookie present/empty/absent/look-alike name/duplicated x client token exact (alone, among 3/20/21/25 values, beside wrong tokens at other sources), near miss (prefix, suffix, case change, padding, NUL, bit flip, empty), absent, at a non-configured, look-alike-named or unparsed location, or guessed fresh token; random source = seeded byte stream per request delivered one byte per Read (uniform, mostly rejected bytes, boundary bytes 200..215, whole first buffer rejected, too short for the first or for a later consumer), shared by all consumers of the request; every token a handler found in its context is kept (the very string) and compared again with its Set-Cookie after all later requests; every 60th case runs on the real crypto/rand (oracle only: length, letters, Set-Cookie = context, no token issued twice); CreateExtractors is also called directly on the configured string; a quarter of the requests are answered by a handler that writes nothing, writes through the raw Response.Writer or Unwrap(), uses NoContent, or returns an HTTPError (Set-Cookie is read off what reached the wire); second-instance cookie names that extend the first one (+_site) or are a proper prefix of it; a sixth of the cases have application cookies set before the stack (session, <csrf cookie>_state) and by the handler (after): the sorted names of all Set-Cookie lines on the wire are compared with the model; cookies holding %xx / + escapes with the DECODED value presented as client token; plus 12 (thorough: 150) concurrency cases: 8-16 goroutines x 150-300 (x3) overlapping requests through one stack, each goroutine with its own cookie (every third without: real crypto/rand), every response must carry ITS request's token in Set-Cookie and context, every request must pass (oracle only, sound on every schedule); non-trivial = an unsafe request that passed, or was rejected although cookie and client tokens were present; distinct = distinct model op lines",
 		New:            func() any { return &c12Case{} },
 		Gen:            c12Gen,
 		Run:            c12Run,
